@@ -74,6 +74,20 @@ def c16_lengths(task):
                 if got.data != b"".join(smp[a:b]) or len(got) != len(smp[a:b]):
                     msg = "region[%r:%r] of %d samples at %d Hz holds %d samples, list slicing gives %d" % (a, b, n, sr, len(got), len(smp[a:b]))
                     break
+            # long regions: the milliseconds view is the seconds view at t/1000 for every whole millisecond, both signs
+            if msg is None and n >= 40000 and sr >= 100:
+                top = min(int(1000 * n / sr) + 3, 6000)
+                for t in range(-top, top + 1):
+                    a = r.ms[t:]
+                    b = r.sec[t / 1000 :]
+                    if len(a) != len(b):
+                        msg = "region.ms[%d:] of %d samples at %d Hz holds %d samples, region.sec[%r:] holds %d" % (t, n, sr, len(a), t / 1000, len(b))
+                        break
+                    c = r.ms[:t]
+                    d = r.sec[: t / 1000]
+                    if len(c) != len(d):
+                        msg = "region.ms[:%d] of %d samples at %d Hz holds %d samples, region.sec[:%r] holds %d" % (t, n, sr, len(c), t / 1000, len(d))
+                        break
             # instants far outside the region through the time views: everything / nothing, whatever n / rate is in binary
             if msg is None:
                 for view, big in (("sec", 1e6), ("ms", 10 ** 9)):
@@ -494,14 +508,15 @@ def c17_split_and_join(rep):
     """split_and_join_with_silence() is silence.join(split regions): 0, 1, 2, 3 detections, several silence durations."""
     L = lib()
     AR, core = L["AR"], L["core"]
-    loud, quiet = (20000).to_bytes(2, "little", signed=True), bytes(2)
-    for pattern in ("aaaa", "aAAa", "AAAA", "AaaA", "aAaaAa", "AaaAaaA", "AAaaAAaaAA"):
+    for nch in (1, 2, 3):
+      loud, quiet = (20000).to_bytes(2, "little", signed=True) * nch, bytes(2 * nch)
+      for pattern in ("aaaa", "aAAa", "AAAA", "AaaA", "aAaaAa", "AaaAaaA", "AAaaAAaaAA"):
         data = b"".join((loud if c == "A" else quiet) * 2 for c in pattern)
         for d in (0, 0.1, 0.25, 0.05, 1.0):
             rep.add("evaluations")
-            kw = dict(min_dur=0.2, max_dur=1.0, max_silence=0, analysis_window=0.2, energy_threshold=50, sr=10, sw=2, ch=1)
+            kw = dict(min_dur=0.2, max_dur=1.0, max_silence=0, analysis_window=0.2, energy_threshold=50, sr=10, sw=2, ch=nch)
             regs = list(core.split(data, **kw))
-            want = None if not regs else (b"\0" * (2 * round(d * 10))).join(r.data for r in regs)
+            want = None if not regs else (b"\0" * (2 * nch * round(d * 10))).join(r.data for r in regs)
             try:
                 got = core.split_and_join_with_silence(data, d, **kw)
                 got = None if got is None else got.data
